@@ -31,6 +31,7 @@ define_language! {
         Lam(Bind<AppliedId>) = "lam",
         Let(Bind<AppliedId>, AppliedId) = "let",
         Sum2(AppliedId, Bind<Bind<AppliedId>>) = "sum2",
+        Bb(Bind<AppliedId>, Bind<AppliedId>) = "bb",
         Num(u32),
     }
 }
@@ -192,6 +193,8 @@ impl LangId {
                     op("sum2", &[Kid(0), Kid(2)]),
                     op("t3", &[Kid(0), Kid(0), Kid(0)]),
                     op("q2", &[SlotF, Kid(0)]),
+                    // two sibling scopes in one node (the same bound name may be used in both)
+                    op("bb", &[Kid(1), Kid(1)]),
                 ],
             },
             LangId::Lambda => LangSig {
